@@ -377,6 +377,27 @@ func TestC18(t *testing.T) {
 		}
 	}
 	eq.done(true)
+	// anti-hash inputs: the Thue-Morse word over two bases and the same word with the bases swapped differ at every
+	// position but collide under every polynomial fingerprint taken modulo a power of two; a search that trusts
+	// fingerprints reports the one inside the other
+	ea := enumPart(t, c18Prop, st, "anti-hash")
+	for k := 6; k <= 11; k++ {
+		tm := make([]byte, 1<<k)
+		sw := make([]byte, 1<<k)
+		for i := range tm {
+			if bitsOn(i)%2 == 0 {
+				tm[i], sw[i] = 'a', 'c'
+			} else {
+				tm[i], sw[i] = 'c', 'a'
+			}
+		}
+		for _, pair := range [][2]string{{"ggtt" + string(tm) + "gt", string(sw)}, {"ggtt" + string(tm) + "gt", string(tm)}, {"tt" + string(tm) + string(sw) + "g", string(sw)}} {
+			if !ea.try(c18Case{Mode: "search", Seq: pair[0], Query: pair[1]}) || !ea.try(c18Case{Mode: "match", Seq: pair[0], Query: pair[1]}) {
+				return
+			}
+		}
+	}
+	ea.done(true)
 	// every query letter x sequence letter of the IUPAC alphabet, both cases (query 'n' only against letters)
 	e2 := enumPart(t, c18Prop, st, "all-letter-pairs")
 	letters := []byte(iupacLower + "ACGTURYKMSWBDHVN")
@@ -449,4 +470,12 @@ func TestC18(t *testing.T) {
 	}
 	e3.done(true)
 	rapidPart(t, c18Prop, st, "rapid", pick(30000, 250000), c18Gen)
+}
+
+func bitsOn(x int) int {
+	n := 0
+	for ; x > 0; x &= x - 1 {
+		n++
+	}
+	return n
 }
